@@ -80,7 +80,7 @@ def rand_graph(rng, rm=None, n=None, p_inv=0.25, consts=None, concepts=None, bas
     n = n or rng.choice([1, 2, 2, 3, 3, 4, 5, 6])
     vs = (pool + ['w%d' % j for j in range(100)])[:n]
     vset = set(vs)
-    bases = usable_bases(rm, bases or BASES)
+    bases = usable_bases(rm, bases, own=False) if bases else usable_bases(rm, BASES)
     bases = [b for b in bases if b != rm.concept_role and b != rm.top_role]
     consts = [c for c in (consts or CONSTS) if c not in vset and str(c) not in vset]
     concepts = concepts or CONCEPTS
